@@ -1137,6 +1137,32 @@ def expandDef(definition, params):
         previous = t
     return output
 
+def stripOuterGroup(tokens):
+    """
+    Remove the braces of an argument that is a single { } group
+
+    TeX does this for delimited arguments just as it does for undelimited
+    ones: with a parameter text [#1], the argument [{xy}] gives #1 the two
+    tokens xy.
+
+    """
+    if not isinstance(tokens, list) or len(tokens) < 2:
+        return tokens
+    if getattr(tokens[0], 'catcode', None) != Token.CC_BGROUP or \
+       getattr(tokens[-1], 'catcode', None) != Token.CC_EGROUP:
+        return tokens
+    level = 0
+    for i, t in enumerate(tokens):
+        code = getattr(t, 'catcode', None)
+        if code == Token.CC_BGROUP:
+            level += 1
+        elif code == Token.CC_EGROUP:
+            level -= 1
+            # The first group ends before the argument does
+            if level == 0 and i < len(tokens) - 1:
+                return tokens
+    return tokens[1:-1]
+
 class NewCommand(Macro):
     """ Superclass for all \newcommand/\newenvironment type commands """
     nargs = 0
@@ -1156,9 +1182,10 @@ class NewCommand(Macro):
         nargs = self.nargs
         if self.opt is not None:
             nargs -= 1
-            params.append(tex.readArgument('[]', default=self.opt,
+            params.append(stripOuterGroup(tex.readArgument('[]',
+                                           default=self.opt,
                                            parentNode=self,
-                                           name='#%s' % len(params)))
+                                           name='#%s' % len(params))))
 
         # Get mandatory arguments
         for i in range(nargs):
@@ -1227,7 +1254,7 @@ class Definition(Macro):
                                 break
                             param.append(t)
                         inparam = False
-                        params.append(param)
+                        params.append(stripOuterGroup(param))
 
             # In a parameter, so get everything up to a token that matches `a`
             elif inparam:
@@ -1243,7 +1270,7 @@ class Definition(Macro):
                         break
                     param.append(t)
                 inparam = False
-                params.append(param)
+                params.append(stripOuterGroup(param))
 
             # Not in a parameter, just make sure the token matches
             else:
